@@ -10,8 +10,8 @@
 use core::cmp::Ordering;
 
 use fpdec_core::{
-    checked_mul_pow_ten, i128_div_rounded, i128_shifted_div_rounded, ten_pow,
-    MAX_N_FRAC_DIGITS,
+    checked_mul_pow_ten, i128_div_mod_floor, i128_div_rounded,
+    i128_shifted_div_rounded, ten_pow, MAX_N_FRAC_DIGITS,
 };
 
 use crate::{Decimal, DecimalError};
@@ -91,11 +91,25 @@ pub(crate) fn checked_div_rounded(
             shift = divident_n_frac_digits - shift;
             // shift < divident_n_frac_digits => shift < 18 => ten_pow(shift)
             // is safe
-            Some(i128_div_rounded(
-                divident_coeff / divisor_coeff,
-                ten_pow(shift),
-                None,
-            ))
+            let (quot, rem) = if divisor_coeff < 0 {
+                i128_div_mod_floor(-divident_coeff, -divisor_coeff)
+            } else {
+                i128_div_mod_floor(divident_coeff, divisor_coeff)
+            };
+            if rem == 0 {
+                Some(i128_div_rounded(quot, ten_pow(shift), None))
+            } else {
+                // rem != 0 => |divisor| >= 2 => |quot| <= 2^126.
+                // Replacing the fractional part of the first quotient by 1/2
+                // changes neither the floor of the final quotient nor the
+                // comparison of its fractional part with 0 and 1/2, so that
+                // the result is rounded only once.
+                Some(i128_div_rounded(
+                    2 * quot + 1,
+                    2 * ten_pow(shift),
+                    None,
+                ))
+            }
         }
     }
 }
